@@ -427,6 +427,14 @@ def d3_9(ctx):
                     classes.add(c.ci)
             if isinstance(x, ast.Call) and isinstance(x.func, ast.Attribute) and atom_name(x.func.value) == var:
                 calls.append(x)
+    # nothing is ever taken out of the merge table: a packet found there may already hold bits accepted for other requests
+    tables_ = {st.targets[0].value.id for st in walk(f) if isinstance(st, ast.Assign) and isinstance(st.targets[0], ast.Subscript) and isinstance(st.targets[0].value, ast.Name)
+               and any(isinstance(x, ast.Assign) and isinstance(x.value, ast.Subscript) and atom_name(x.value.value) == st.targets[0].value.id for x in walk(f))}
+    removals = [c for c in walk(f) if isinstance(c, ast.Call) and isinstance(c.func, ast.Attribute) and c.func.attr in ("pop", "popitem", "clear") and atom_name(c.func.value) in tables_]
+    removals += [d for d in walk(f) if isinstance(d, ast.Delete) and any(isinstance(t, ast.Subscript) and atom_name(t.value) in tables_ for t in d.targets)]
+    if tables_:
+        ctx.check(not removals, ckey(fn, "shared-packet-kept"), removals[0] if removals else f, f"merged packets stay registered in {sorted(tables_)} once created",
+                  f"`{src(removals[0]) if removals else ''}` removes a merged packet from {sorted(tables_)}: bits already accepted into it for other requests of the call are discarded with it (and the packet ids derived from the table size repeat)")
     if not classes or not calls:
         ctx.undecided(ckey(fn, "shared-packet"), f, f"merged packet not identified (vars {sorted(shared_vars)}, classes {[c.name for c in classes]}, calls {len(calls)})")
         return
